@@ -339,3 +339,48 @@ Theorem C11_has_permission_end_to_end : forall R W ctx l fuel reqctx ps p,
         <-> exists e, first_match acls ps p = Some e /\ act e = Allow).
 Proof. exact has_permission_end_to_end. Qed.
 Print Assumptions C11_has_permission_end_to_end.
+
+(* ---- proof-only round: monotonicity in the ancestors (Proofs/C11_more.v) *)
+Require Import Verif.Proofs.C11_more.
+
+(* a decision taken by an ACE of L is not changed by ANY ancestors put above L (verdict, location and ACE) *)
+Theorem C11_permits_ancestors_irrelevant_once_decided : forall L A ps p,
+  permits L ps p <> DefaultDeny -> permits (L ++ A) ps p = permits L ps p.
+Proof. exact permits_app_decided. Qed.
+Print Assumptions C11_permits_ancestors_irrelevant_once_decided.
+
+Theorem C11_permits_ancestors_irrelevant_once_decided_generated : forall L A ps p,
+  gen_permits L ps p <> DefaultDeny -> gen_permits (L ++ A) ps p = gen_permits L ps p.
+Proof. exact gen_permits_app_decided. Qed.
+Print Assumptions C11_permits_ancestors_irrelevant_once_decided_generated.
+
+(* if nothing in L matches, the ancestors decide exactly as they would alone (location index shifted) *)
+Theorem C11_permits_inherits_when_undecided_generated : forall L A ps p,
+  gen_permits L ps p = DefaultDeny -> gen_permits (L ++ A) ps p = shift (length L) (gen_permits A ps p).
+Proof. exact gen_permits_app_default. Qed.
+Print Assumptions C11_permits_inherits_when_undecided_generated.
+
+Theorem C11_spec_granted_app : forall L A ps p,
+  spec_granted (L ++ A) ps p =
+  match first_match L ps p with Some _ => spec_granted L ps p | None => spec_granted A ps p end.
+Proof. exact spec_granted_app. Qed.
+Print Assumptions C11_spec_granted_app.
+
+(* world form (regenerated lineage() + scan): more ancestors above the old root, same ACLs below, same decision *)
+Theorem C11_world_permits_ancestors : forall W W' ctx l l' fuel fuel' ps p d,
+  is_lineage W ctx l -> length l < fuel ->
+  is_lineage W' ctx (l ++ l') -> length (l ++ l') < fuel' ->
+  map (acl_of W') l = map (acl_of W) l ->
+  world_permits W fuel ctx ps p = Some d -> d <> DefaultDeny ->
+  world_permits W' fuel' ctx ps p = Some d.
+Proof. exact world_permits_ancestors. Qed.
+Print Assumptions C11_world_permits_ancestors.
+
+Theorem C11_has_permission_ancestors : forall R W W' ctx l l' reqctx ps p,
+  has_policy R = true ->
+  is_lineage W ctx l -> is_lineage W' ctx (l ++ l') -> map (acl_of W') l = map (acl_of W) l ->
+  first_match (map (acl_of W) l) ps p <> None ->
+  hp_granted (gen_has_permission R (Some (map (acl_of W') (l ++ l'))) reqctx ps p)
+  = hp_granted (gen_has_permission R (Some (map (acl_of W) l)) reqctx ps p).
+Proof. exact has_permission_ancestors. Qed.
+Print Assumptions C11_has_permission_ancestors.
